@@ -268,6 +268,10 @@ func One(m OM, concrete bool) {
 		}
 		vals = []string{string(vb[0:1]), string(vb[1:2])}
 	}
+	if v.Param("nilvalue", 0) != 0 {
+		// the zero value of the map's value type (a nil constraint, an empty AST node) is a value like any other
+		vals = append(vals, "")
+	}
 	// read-only traffic from a second goroutine when a lock-discipline violation is replayed under the race detector
 	v.RaceProbe(func() {
 		m.Len()
@@ -280,7 +284,7 @@ func One(m OM, concrete bool) {
 	r := &ref{}
 	st := states[v.Choose(0, len(states)-1)]
 	for _, ki := range st {
-		val := vals[v.Choose(0, 1)]
+		val := vals[v.Choose(0, len(vals)-1)]
 		m.Set(keys[ki], val)
 		r.set(keys[ki], val)
 	}
